@@ -82,7 +82,8 @@ def results():
         f.write("# Seeded changes and which checks catch them\n\nEach change was written by an independent sub-agent that saw only the property text, in its own scratch "
                 "worktree. Variants A, B are the first round; C, D a second round (fresh agents, told only the one-line titles of A and B so as to do something else) run "
                 "after the checks had been strengthened once; the third (E, F) and fourth rounds were evaluated in earlier sessions but their files were lost with the scratch area of those sessions - only "
-                "their descriptions survive in DESIGN.md section 11; G is the fifth round (fresh agents, told one-line descriptions of all earlier changes; files committed as soon as evaluated). "
+                "their descriptions survive in DESIGN.md section 11; G is the fifth round (fresh agents, told one-line descriptions of all earlier changes; files committed as soon as evaluated), H, J, K, L, M, N the sixth to eleventh, P the twelfth (two halves of ten). "
+                "Where a later fix: commit rewrote the lines a change touches, patch.diff is a port to the current tree and patch_original.diff what the agent wrote (see meta.json / note). "
                 "`valid` = applies to the current tree, compiles, pinned Go tests pass, demonstration fails with the change and passes without. `caught` = "
                 "`./check <id> --tier quick` (run with VERIF_REPO pointing at a scratch worktree with the change applied) exits 1 with VIOLATION lines.\n\n"
                 "| property | variant | valid | caught by ./check <id> | first violation signature |\n|---|---|---|---|---|\n")
